@@ -141,6 +141,7 @@ class State:
         self.eqs: list[Lin] = []       # explicit equalities (each == 0); also present in facts as f >= 0 and -f >= 0
         self.heap: dict[int, dict] = {}
         self.prefixes: dict = {}   # repr(term) -> tuple of constant prefixes the byte string is known to start with
+        self.events: list = []     # (callee fq, argument BytesV) of summarised helper calls on this path
         self.dead = None           # None | 'return' | 'continue' | 'break' | 'raise'
         self.retval = None
         self.trace: list[str] = []  # human-readable branch decisions
@@ -151,6 +152,7 @@ class State:
         s.facts = list(self.facts)
         s.eqs = list(self.eqs)
         s.prefixes = dict(self.prefixes)
+        s.events = list(self.events)
         s.heap = {k: _copy_obj(v) for k, v in self.heap.items()}
         s.dead = self.dead
         s.retval = self.retval
@@ -212,6 +214,7 @@ class State:
         self.facts = other.facts
         self.eqs = other.eqs
         self.prefixes = other.prefixes
+        self.events = other.events
         self.heap = other.heap
         self.trace = other.trace
         self.dead = other.dead
@@ -1610,6 +1613,7 @@ class Interp:
             self.summaries_used.add(f.fi.fq)
             a0 = args[0] if args else None
             b0 = self.as_bytes(a0)
+            st.events.append((f.fi.fq, b0))
             return self.fresh_bytes(st, ("call", f.fi.fq, b0.term if b0 is not None else ("?",)))
         if f.fi in self.summaries and self.call_stack:
             # modular step: use the callee's span contract (checked separately with the callee as entry point):
@@ -1644,6 +1648,8 @@ class Interp:
         st.eqs = r.eqs
         st.heap = r.heap
         st.trace = r.trace
+        st.events = r.events
+        st.prefixes = r.prefixes
         return r.retval
 
     def call_repo(self, fi: FuncInfo, args, kwargs, st, top=False, closure=None):
